@@ -273,3 +273,14 @@ Proof.
   - intros m. unfold alt. cbn [filter about]. destruct (N.eqb_spec 1 m), (N.eqb_spec 7 m); try lia; cbn; intuition (try discriminate; try reflexivity).
   - reflexivity.
 Qed.
+
+Lemma alt_prefix m a b : alt m (a ++ b) -> alt m a.
+Proof.
+  unfold alt. rewrite filter_app. generalize (filter (about m) b). generalize (filter (about m) a).
+  intros x. induction x as [|x0 t0 IH]; intros l H; [exact I|].
+  cbn [app alt_seq] in H |- *. destruct H as [H1 H2]. split; [|eapply IH; eauto]. intros Hx0. specialize (H1 Hx0).
+  destruct t0; [exact I|exact H1].
+Qed.
+
+Lemma alt_suffix m a b : alt m (a ++ b) -> alt m b.
+Proof. unfold alt. rewrite filter_app. apply alt_seq_suffix. Qed.
